@@ -69,11 +69,11 @@ func civil(name string) *time.Location {
 }
 
 type histItem struct {
-	c    int
-	hi   int
-	u    time.Time
-	bad  bool
-	ts   uint
+	c   int
+	hi  int
+	u   time.Time
+	bad bool
+	ts  uint
 }
 
 func (it histItem) token() string {
